@@ -4,4 +4,11 @@ import MtailVerif.Props.C12
 #print axioms MtailVerif.C12.export_releases
 #print axioms MtailVerif.ExportLocks.safe_sound
 #print axioms MtailVerif.C12.json_export_releases
+#print axioms MtailVerif.C12.push_writes_have_a_deadline
+#print axioms MtailVerif.C12.push_every_write_is_bounded
 #print axioms MtailVerif.C12.export_skeletons
+#print axioms MtailVerif.C12.f_exporter_prometheus_skeletons
+#print axioms MtailVerif.C12.f_metrics_metric_skeletons
+#print axioms MtailVerif.C12.f_exporter_export_skeletons
+#print axioms MtailVerif.C12.f_exporter_graphite_skeletons
+#print axioms MtailVerif.C12.f_exporter_varz_skeletons
